@@ -144,23 +144,28 @@ func voOpenAgain(w *voWorld, h *voHist, peers int, p int) {
 	if verifSymbolic() {
 		verifAssert("C33-environment-used-sensibly", w.badCalls == 0)
 	}
+	w.observeUp()
 }
 
-func voPick(name string, from []int) int {
-	return from[verifChoice(name, len(from))]
+func (w *voWorld) choose(name string, n int) int {
+	v := verifChoice(name, n)
+	w.choices = append(w.choices, name+"="+voItoa(v))
+	return v
+}
+
+func (w *voWorld) pick(name string, from []int) int {
+	return from[w.choose(name, len(from))]
 }
 
 // voRun: first start, then b.reopens rounds of (operations, shutdown, tampering, open).
-func voRun(w *voWorld, b voBounds) *voHist {
+func voRun(w *voWorld, entry string, b voBounds) *voHist {
 	verifPanicsAreViolations()
+	w.entry = entry
 	h := &voHist{nextTag: 1, last: "first start"}
 
 	s := w.newStore()
 	w.s = s
 	err := s.Open()
-	if err != nil {
-		println("first open:", err.Error())
-	}
 	verifSettle()
 	verifAssert("C33-first-open-succeeds", err == nil)
 	w.bootstrap(s)
@@ -170,9 +175,9 @@ func voRun(w *voWorld, b voBounds) *voHist {
 
 	for p := 0; p < b.reopens; p++ {
 		if w.electable {
-			n := verifChoice(verifName("operations-in-period-", p), b.maxOps[p]+1)
+			n := w.choose(verifName("operations-in-period-", p), b.maxOps[p]+1)
 			for i := 0; i < n; i++ {
-				switch voPick(verifName("operation-", p*10+i), b.ops) {
+				switch w.pick(verifName("operation-", p*10+i), b.ops) {
 				case voOpWrite:
 					w.write(h.nextTag)
 					h.applied = append(h.applied, h.nextTag)
@@ -186,16 +191,18 @@ func voRun(w *voWorld, b voBounds) *voHist {
 				}
 			}
 		}
-		closeOpt := voPick(verifName("no-snapshot-on-close-", p), b.closeOpt)
+		closeOpt := w.pick(verifName("no-snapshot-on-close-", p), b.closeOpt)
 		w.shutdown(closeOpt == 1)
 		walBefore := w.walHoldsWrites()
-		h.tamper = voPick(verifName("while-down-", p), b.tampers)
+		h.tamper = w.pick(verifName("while-down-", p), b.tampers)
 		verifAssume(w.tamper(h.tamper))
 		if walBefore && (h.tamper == voTamperCheckpoint || h.tamper == voTamperCheckpointSameTime) {
 			verifReach("wal-checkpointed-behind-the-markers-back")
 		}
-		voOpenAgain(w, h, voPick(verifName("peers-file-", p), b.peers), p)
+		w.observeDown()
+		voOpenAgain(w, h, w.pick(verifName("peers-file-", p), b.peers), p)
 	}
+	w.report()
 	return h
 }
 
@@ -214,7 +221,7 @@ func VerifC33bReopen() {
 	}
 	w := voNewWorld()
 	defer w.cleanup()
-	voRun(w, b)
+	voRun(w, "VerifC33bReopen", b)
 }
 
 // VerifC33bWhileDown: the marker / the SQLite file are tampered with while the node is down.
@@ -227,7 +234,7 @@ func VerifC33bWhileDown() {
 	}
 	w := voNewWorld()
 	defer w.cleanup()
-	voRun(w, b)
+	voRun(w, "VerifC33bWhileDown", b)
 }
 
 // VerifC33bTwice: two rounds - what the first open leaves behind is what the second one finds
@@ -242,7 +249,7 @@ func VerifC33bTwice() {
 	}
 	w := voNewWorld()
 	defer w.cleanup()
-	voRun(w, b)
+	voRun(w, "VerifC33bTwice", b)
 }
 
 // VerifC33bThrice (thorough): three rounds of short periods.
@@ -251,7 +258,7 @@ func VerifC33bThrice() {
 		peers: []int{voPeersNone, voPeersSelf}, closeOpt: []int{0, 1}}
 	w := voNewWorld()
 	defer w.cleanup()
-	voRun(w, b)
+	voRun(w, "VerifC33bThrice", b)
 }
 
 // Vacuity twin: claims that a reopened node never serves anything.
@@ -260,7 +267,7 @@ func VerifC33bTwin() {
 		peers: []int{voPeersNone, voPeersSelf}, closeOpt: []int{1}}
 	w := voNewWorld()
 	defer w.cleanup()
-	voRun(w, b)
+	voRun(w, "VerifC33bTwin", b)
 	got, _ := w.liveTags()
 	verifAssert("twin", len(got) == 0)
 }
